@@ -13,6 +13,7 @@ import (
 	"path/filepath"
 	"strings"
 	"sync/atomic"
+	"syscall"
 
 	"github.com/ARM-software/golang-utils/utils/filesystem"
 
@@ -39,8 +40,8 @@ func osScratchCleanup() {
 
 // argument decorations
 const (
-	argPlain    = "plain"          // the argument is the tree itself (which contains links)
-	argLink     = "arg-is-link"    // the argument is a symbolic link to the file / directory / archive
+	argPlain    = "plain"           // the argument is the tree itself (which contains links)
+	argLink     = "arg-is-link"     // the argument is a symbolic link to the file / directory / archive
 	argDangling = "arg-is-dangling" // the argument is a dangling symbolic link
 )
 
@@ -226,6 +227,7 @@ func runOS(ep *entryPoint, spec treeSpec, mode, arg string, k int64, flavour str
 		endCtx()
 	}
 	var fired atomic.Bool
+	var removes atomic.Int64
 	base := e.sh.Count()
 	e.sh.ResetLog()
 	e.sh.Rec = true
@@ -236,6 +238,9 @@ func runOS(ep *entryPoint, spec treeSpec, mode, arg string, k int64, flavour str
 		}
 		if ep.RenameFails && op.Name == "Rename" {
 			return &os.LinkError{Op: "rename", Old: op.Path, New: op.Path2, Err: errCrossDevice}
+		}
+		if ep.RemoveFault > 0 && op.Name == "Remove" && removes.Add(1) == int64(ep.RemoveFault) {
+			return &os.PathError{Op: "remove", Path: op.Path, Err: syscall.EPERM}
 		}
 		return nil
 	})
@@ -266,6 +271,9 @@ func runOS(ep *entryPoint, spec treeSpec, mode, arg string, k int64, flavour str
 				}
 				if len(res.OpsAfter) < 40 {
 					res.OpsAfter = append(res.OpsAfter, op.Name)
+				}
+				if op.Name == "ForceRemove" || op.Name == "RemoveAll" {
+					res.ForcedAfter++
 				}
 			}
 		}
